@@ -121,6 +121,14 @@ func (c *Checker) Check(host string) (ok bool, err error) {
 		return false, fmt.Errorf("getting hashes: %w", err)
 	}
 
+	// Only a successful or a negative response tells which hashes the service
+	// has for the requested prefixes.  Any other one, for example SERVFAIL or
+	// REFUSED, is a failed lookup just like an exchange error, and must not be
+	// cached as the absence of hashes.
+	if rc := resp.Rcode; rc != dns.RcodeSuccess && rc != dns.RcodeNameError {
+		return false, fmt.Errorf("getting hashes: response code %s", dns.RcodeToString[rc])
+	}
+
 	matched, receivedHashes := c.processAnswer(hashesToRequest, resp, host)
 
 	c.storeInCache(hashesToRequest, receivedHashes)
